@@ -41,6 +41,11 @@ func (zo *Object) GetObjectName() string {
 	return zo.model.GetName()
 }
 
+// GetClassModule - the module that defines the object's class (nil: native code)
+func (zo *Object) GetClassModule() *r.Module {
+	return zo.model.GetModule()
+}
+
 func (zo *Object) IsInstanceOf(classModel *ClassModel) bool {
 	return zo.model == classModel
 }
